@@ -55,6 +55,10 @@ pub fn write_archive(dir: &Path, bands: &Value) {
             let data = serde_json::to_vec(&entries).unwrap();
             std::fs::write(sub.join(format!("{:09}", n)), compress(&data)).unwrap();
         }
+        if state == "emptytail" {
+            // a backup killed inside the write of the tail
+            std::fs::write(bdir.join("BANDTAIL"), b"").unwrap();
+        }
         if state == "closed" || state == "noheadtail" {
             std::fs::write(
                 bdir.join("BANDTAIL"),
